@@ -86,16 +86,28 @@ func VerifH_C14_logResults() {
 // pattern: the de-duplicating logger forwards exactly the first sighting of each ID, in order.
 func VerifH_C14_unique() {
 	K, L := verifParam("K", 3), verifParam("L", 1)
-	in := make(chan scan.Result, K)
+	// CAP: capacity of the result stream (the de-duplicator sizes its own buffer after it);
+	// LATE: the output side starts reading only after the stream has backed up
+	capIn := verifParam("CAP", K)
+	in := make(chan scan.Result, capIn)
 	var ids [][]byte
+	var rs []scan.Result
 	for i := 0; i < K; i++ {
 		b := ndBytes("id", L)
 		ids = append(ids, b)
-		in <- &c14Result{id: string(b), data: []byte{byte('0' + i)}}
+		rs = append(rs, &c14Result{id: string(b), data: []byte{byte('0' + i)}})
 	}
-	close(in)
+	go func() {
+		for _, r := range rs {
+			in <- r
+		}
+		close(in)
+	}()
 	ul := NewUniqueLogger(nil)
 	out := ul.uniqResults(context.Background(), in)
+	if verifParam("LATE", 0) == 1 {
+		time.Sleep(time.Millisecond)
+	}
 	var got []byte
 	for r := range out {
 		got = append(got, r.(*c14Result).data[0])
